@@ -142,7 +142,7 @@ class _Call(object):
     PROP = PROP
     ID = 'c13.call'
     WALL_S = 8
-    TIERS = {'quick': 18 * 152, 'thorough': 600 * 152}
+    TIERS = {'quick': 150 * 152, 'thorough': 1500 * 152}
 
     def generate_r(self, sub, r):
         rnd = random.Random(sub)
